@@ -7,8 +7,8 @@ package checks
 
 import (
 	"fmt"
-	"runtime/debug"
 	"math/rand"
+	"runtime/debug"
 	"sort"
 	"strings"
 	"sync"
@@ -38,22 +38,24 @@ type cEvent struct {
 }
 
 type cTxn struct {
-	Worker, N        int
-	Events           []*cEvent
-	CommitInv        int64
-	CommitResp       int64
-	Committed        bool
-	Aborted          bool // explicit or by a statement
-	Toks             []string
+	Worker, N  int
+	Events     []*cEvent
+	CommitInv  int64
+	CommitResp int64
+	Committed  bool
+	Aborted    bool // explicit or by a statement
+	Toks       []string
 }
 
 func (t *cTxn) name() string { return fmt.Sprintf("w%dt%d", t.Worker, t.N) }
 
 type cHistory struct {
-	Txns  []*cTxn
-	Final map[int32]string
-	Panic string
-	Desc  map[string]any
+	DupID      string // identity monitor: a transaction id handed out twice
+	BeginCalls int
+	Txns       []*cTxn
+	Final      map[int32]string
+	Panic      string
+	Desc       map[string]any
 }
 
 func tokensOf(v string) []string {
@@ -95,6 +97,40 @@ func runConcurrentHistory(env *core.Env, r *rand.Rand, idx int, fixedOnly bool) 
 		txn := db.Begin()
 		db.InsertPlan(txn, "t", rows)
 		db.Commit(txn)
+	}
+	// identity monitor: transactions are told apart (by the lock manager, the write sets, the log) through their ids.
+	// `workers` goroutines released together begin and commit empty transactions; no id may be handed out twice.
+	{
+		ids := make([][]int32, workers)
+		gate := make(chan struct{})
+		var sw sync.WaitGroup
+		for w := 0; w < workers; w++ {
+			sw.Add(1)
+			go func(w int) {
+				defer sw.Done()
+				defer func() { recover() }()
+				<-gate
+				for i := 0; i < 1500; i++ {
+					t := db.Begin()
+					ids[w] = append(ids[w], int32(t.GetTransactionID()))
+					db.Commit(t)
+				}
+			}(w)
+		}
+		close(gate)
+		sw.Wait()
+		seen := map[int32]int{}
+		n := 0
+		for w := range ids {
+			for _, id := range ids[w] {
+				n++
+				if prev, dup := seen[id]; dup && h.DupID == "" {
+					h.DupID = fmt.Sprintf("transaction id %d was handed out to a transaction of goroutine %d and to one of goroutine %d (%d concurrent Begin calls by %d goroutines)", id, prev, w, workers*1500, workers)
+				}
+				seen[id] = w
+			}
+		}
+		h.BeginCalls = n
 	}
 	var clock atomic.Int64
 	var mu sync.Mutex
@@ -260,6 +296,10 @@ func ilCaseB(env *core.Env, idx int, prop string) *core.CaseResult {
 		return m
 	}
 	res.Add("goroutine_histories", 1)
+	res.Add("concurrent_begin_calls_with_distinct_ids_checked", int64(h.BeginCalls))
+	if h.DupID != "" {
+		res.Violate("duplicate-transaction-id", tags, desc(nil), "%s: two live transactions with one id are not isolated from each other (lock ownership, write sets and log records are keyed by it)", h.DupID)
+	}
 	if h.Panic != "" {
 		res.Violate("panic", tags, desc(nil), "concurrent multi-statement workload failed: %s", clipStr(h.Panic, 500))
 		return res
@@ -463,8 +503,8 @@ func c05Graph(res *core.CaseResult, h *cHistory, tags []string, desc func(map[st
 	}
 	// graph
 	type edge struct {
-		to   *cTxn
-		why  string
+		to  *cTxn
+		why string
 	}
 	g := map[*cTxn][]edge{}
 	add := func(a, b *cTxn, why string) {
